@@ -30,6 +30,7 @@ def scratch_copy():
 
 def run(prop, mod, C):
     patches = sorted(glob.glob(os.path.join(VERIF, "selftest", "mutants", prop + "-*.patch")))
+    patches += sorted(glob.glob(os.path.join(VERIF, "selftest", "neutral", prop + "-*.patch")))
     results = []
     failures = []
     for p in patches:
@@ -56,6 +57,12 @@ def run(prop, mod, C):
             except mir.MissingAnchor as e:
                 C2.anchor_missing("engine", "uncaught", str(e))
             failed = [o["key"] for o in C2.obligations if not o["ok"] and (prop, o["key"]) not in C2.known]
+            if os.sep + "neutral" + os.sep in p:
+                # behaviour-preserving variant: the rules must stay silent
+                results.append({"neutral_variant": name, "silent": not failed, "reported": failed[:8]})
+                if failed:
+                    failures.append(name + " (false alarm on a behaviour-preserving variant)")
+                continue
             hit = [k for k in failed if expect and expect in k]
             results.append({"mutant": name, "expect": expect, "detected": bool(hit), "reported": failed[:8]})
             if not hit:
